@@ -2,7 +2,7 @@
    a case is an operation name and a list of generic arguments; the answer is a generic
    output value.  The OCaml driver (eval/driver.ml) only parses / prints these types. *)
 From Coq Require Import String.
-From ArrRs Require Import Base Arr Index Axis Broadcast Lift Split Reduce Sort Join Reorder Edit Bits Linalg Create Str Text.
+From ArrRs Require Import Base Arr Index Axis Broadcast Lift Split Reduce Sort Join Reorder Edit Bits Linalg Create Str Text Linsolve.
 From Coq Require QArith.
 Open Scope string_scope.
 Open Scope list_scope.
@@ -505,8 +505,8 @@ Definition table_str : list (string * (list arg -> out)) :=
   ; ("s_partition", ss2 s_partition olarr); ("s_rpartition", ss2 s_rpartition olarr)
   ; ("s_count", ss2 (fun a b => Z.of_nat (count_str a b)) oiarr)
   ; ("s_starts_with", ss2 starts_with obarr); ("s_ends_with", ss2 ends_with obarr)
-  ; ("s_find", ss2 (fun a b => zfind (find a b)) oiarr); ("s_index", ss2 (fun a b => zfind (find a b)) oiarr)
-  ; ("s_rfind", ss2 (fun a b => zfind (rfind a b)) oiarr); ("s_rindex", ss2 (fun a b => zfind (rfind a b)) oiarr)
+  ; ("s_find", ss2 (fun a b => zfind (Str.find a b)) oiarr); ("s_index", ss2 (fun a b => zfind (Str.find a b)) oiarr)
+  ; ("s_rfind", ss2 (fun a b => zfind (Str.rfind a b)) oiarr); ("s_rindex", ss2 (fun a b => zfind (Str.rfind a b)) oiarr)
   ; ("s_equal", ss2 s_equal obarr); ("s_not_equal", ss2 s_not_equal obarr); ("s_less", ss2 s_less obarr)
   ; ("s_less_equal", ss2 s_less_equal obarr); ("s_greater", ss2 s_greater obarr); ("s_greater_equal", ss2 s_greater_equal obarr)
   ; ("s_capitalize", ss1 s_capitalize osarr); ("s_lower", ss1 s_lower osarr); ("s_upper", ss1 s_upper osarr)
@@ -565,9 +565,29 @@ Definition table_text : list (string * (list arg -> out)) :=
        | [ASA _ es] => OList [OS (show_list es); OLArr [1] [parse_list (show_list es)]] | _ => OBad end)
   ].
 
+(* ---- C15: solve and det over exact rationals ---- *)
+Definition qmat_of (sh es : list Z) : qmat :=
+  match nats sh with
+  | [n; m] => map (fun i => map (fun j => QArith_base.inject_Z (nth (i * m + j) es 0%Z)) (seq 0 m)) (seq 0 n)
+  | [n] => map (fun i => [QArith_base.inject_Z (nth i es 0%Z)]) (seq 0 n)
+  | _ => []
+  end.
+Definition table_solve : list (string * (list arg -> out)) :=
+  [ ("solve", fun args => match args with
+       | [AA s1 e1; AA s2 e2] =>
+         let a := qmat_of s1 e1 in let b := qmat_of s2 e2 in
+         match solve a b with
+         | Ok x => OList [oq (concat x); OZ (if residual_ok a x b then 1 else 0)%Z]
+         | Err e => OErr e | Panic => OPanic | Fuel => OFuel end
+       | _ => OBad end)
+  ; ("det", fun args => match args with
+       | [AA s1 e1] => oq [det (qmat_of s1 e1)] | _ => OBad end)
+  ].
+
 Definition table : list (string * (list arg -> out)) :=
   table_index ++ table_axis ++ table_broadcast ++ table_ew2 ++ table_ew1 ++ table_ops ++ table_reduce ++ table_sort
-  ++ table_join ++ table_reorder ++ table_edit ++ table_bits ++ table_linalg ++ table_create ++ table_str ++ table_text.
+  ++ table_join ++ table_reorder ++ table_edit ++ table_bits ++ table_linalg ++ table_create ++ table_str ++ table_text
+  ++ table_solve.
 
 Fixpoint lookup (name : string) (t : list (string * (list arg -> out))) : option (list arg -> out) :=
   match t with
